@@ -36,3 +36,20 @@ package basic
 //@ func NewHTPasswdValidator$1
 //@ prop C20
 //@ ensures[an-update-reloads-this-map-from-the-same-path] called(loadHTPasswdFile) && recv(loadHTPasswdFile) == h && arg(loadHTPasswdFile, 1) == path
+
+// ------------------------------------------------------------------ C20 / C19: the new map is complete before it is returned; a malformed
+// record (one field, or more than two) makes the whole parse an error whatever comes after it; nothing is indexed unchecked
+//@ func createHtpasswdMap
+//@ safety
+//@ prop C20 C19
+//@ loop 0 invariant[malformed-records-are-remembered] rangeindex >= -1 && rangeindex < len(records) && h != nil && h.users != nil
+//@     && ((exists j int :: 0 <= j && j <= rangeindex && (len(records[j]) == 1 || len(records[j]) > 2)) ==> len(invalidRecords) > 0)
+//@ ensures[a-malformed-record-is-an-error] (exists j int :: 0 <= j && j < len(records) && (len(records[j]) == 1 || len(records[j]) > 2)) ==> ret1 != nil
+//@ ensures[a-non-empty-map-or-an-error] ret1 == nil ==> ret0 != nil && ret0.users != nil && len(ret0.users) > 0
+
+//@ func passShaOrBcrypt
+//@ safety
+//@ prop C20 C19
+//@ requires h.users != nil
+//@ modifies maps
+//@ ensures[the-map-stays-the-callers] h.users == old(h.users)
